@@ -278,6 +278,11 @@ func (ap *AP) S(size int, slices ...Slice) (newAP AP, ndStart, ndEnd int, err er
 		}
 	}
 
+	// the elements of a slice of a lazily transposed tensor are not laid out in order
+	if ap.o.IsTransposed() {
+		order = MakeDataOrder(order, NonContiguous)
+	}
+
 	if ndEnd-ndStart == 1 {
 		// scalars are a special case
 		newAP = AP{}
